@@ -144,7 +144,32 @@ class Reader:
         ]
         return data
 
+    @staticmethod
+    def _validate_segments(segments: List[Tuple[int, int, int, int]]) -> None:
+        """
+        reject segment tables the writer can never produce (a damaged file): unaligned segments,
+        data longer than its segment (it would be loaded outside the segment), overlapping segments.
+        """
+        for segment_start, segment_length, _, data_length in segments:
+            if segment_start % 2 != 0 or segment_length % 2 != 0:
+                raise FlipJumpReadFjmException(
+                    f"Bad .fjm file: segment-start and segment-length must be even "
+                    f"(got start={segment_start}, length={segment_length})."
+                )
+            if segment_length < data_length:
+                raise FlipJumpReadFjmException(
+                    f"Bad .fjm file: segment data-length ({data_length}) exceeds the segment-length ({segment_length})."
+                )
+        ordered = sorted((start, start + length) for start, length, _, _ in segments if length)
+        for (_, previous_end), (next_start, _) in zip(ordered, ordered[1:]):
+            if next_start < previous_end:
+                raise FlipJumpReadFjmException(
+                    f"Bad .fjm file: overlapping segments (a segment starts at word {next_start}, "
+                    f"before the previous one ends at word {previous_end})."
+                )
+
     def _init_memory(self, segments: List[Tuple[int, int, int, int]], data: List[int]) -> None:
+        self._validate_segments(segments)
         self.memory = {}
         self.zeros_boundaries = []
 
